@@ -471,7 +471,9 @@ static void run(const Case &c, Ctx &ctx) {
 }
 
 int main(int argc, char **argv) {
-    setenv("TZ", "UTC", 1); // the driver sets it too; nothing here depends on local time, this keeps stray runs identical
+    // The driver sets TZ: UTC for the main target, a non-UTC POSIX zone for the *_tz_* targets (nothing the property
+    // talks about may depend on the process time zone).  Only a stray run without TZ falls back to UTC.
+    setenv("TZ", "UTC", 0);
     tzset();
     const char *k = getenv("VERIF_KNOWN");
     if (k) {
